@@ -521,6 +521,7 @@ def check_cache_account(fx, rep):
             rep.ok('R3-cache-account', m, '%s(old) stored and recorded; storage_was_destroyed=%d' % (sfn, wiped))
     rep.floor('R3-methods', n, 6)
     check_storage_disposition(fx, rep)
+    check_info_change_keeps_account(fx, rep)
     # when no transition is returned
     none_specs = {'selfdestruct': {LNE}, 'touch_empty_eip161': {LNE, D, DA}}
     for m, want in none_specs.items():
@@ -586,6 +587,44 @@ def check_storage_disposition(fx, rep):
         else:
             rep.violation('R3-cache-account', m + ':cached-storage', 'CacheAccount::%s: the slots already cached for the account are %s; they must be %s (the transaction only carries the slots it changed)' % (
                 m, '/'.join(sorted(verdicts)) or 'untouched', 'kept' if want_keep else 'dropped'), f.where())
+
+
+def check_info_change_keeps_account(fx, rep):
+    """account_info_change (balance increments / drains between transactions) edits the info of the
+    cached account in place: what it stores back is the account it took out of the cache - with its
+    cached storage - not a new account built from the info alone."""
+    f = fx.fns.get(CA + 'account_info_change')
+    if f is None:
+        rep.undecided('R3-cache-account', 'account_info_change:cached-storage', 'not found')
+        return
+    rep.fn(f)
+    try:
+        rs = Symx(fx, max_paths=600).run(f)
+    except Budget:
+        rep.undecided('R3-cache-account', 'account_info_change:cached-storage', 'path budget', f.where())
+        return
+    verdicts = set()
+    for r in rs:
+        for (root, path), v in r.stores.items():
+            if root != ('arg', 1) or path != ('.account',):
+                continue
+            inner = v[4][0] if v[0] == 'agg' and v[2] == 'Some' and v[4] else None
+            while inner is not None and inner[0] == 'with':
+                mods = inner[2]
+                if any(tuple(pth)[:1] != ('.info',) for pth, _val in mods):
+                    verdicts.add('other fields rewritten')
+                inner = inner[1]
+            txt = render(inner) if inner is not None else 'None'
+            src = inner[2][0] if inner is not None and inner[0] == 'call' and inner[2] else None
+            if inner is not None and inner[1].endswith(('unwrap_or_default', 'unwrap')) and src is not None and src[0] == 'call' \
+                    and src[1].endswith('Option::take') and src[2] and src[2][0] == ('ref', ('arg', 1), ('.account',)):
+                verdicts.add('kept')
+            else:
+                verdicts.add('rebuilt from ' + txt[:50])
+    if verdicts == {'kept'}:
+        rep.ok('R3-cache-account', 'account_info_change:cached-storage', 'the cached account is edited in place')
+    else:
+        rep.violation('R3-cache-account', 'account_info_change:cached-storage', 'CacheAccount::account_info_change stores back %s: the storage cached for the account is lost, later reads ask the database again or answer zero' % sorted(verdicts), f.where())
 
 
 def render_deep(v, depth=0):
